@@ -7,6 +7,7 @@ package hx
 import (
 	"fmt"
 	"reflect"
+	"regexp/syntax"
 	"runtime"
 	"runtime/debug"
 	"strconv"
@@ -177,7 +178,7 @@ func observe(re *coregex.Regex) (statehash.Result, monitors) {
 		case tBTState:
 			f := ptr.Elem().FieldByName("Visited")
 			if f.IsValid() {
-				visitedLens = append(visitedLens, int64(f.Len()))
+				visitedLens = append(visitedLens, int64(f.Cap())) // capacity: the memory held, not only the part in use
 			}
 		case tCache:
 			c := (*lazy.DFACache)(unsafe.Pointer(ptr.Pointer()))
@@ -289,9 +290,13 @@ func Plan(prop string, md mode) func(tier string) *harness.Plan {
 		}
 		nAlloc := 0
 		if md == ModeMemory {
-			nAlloc = 1
+			nAlloc = 2
 		}
 		run := func(w *harness.W, u int) {
+			if u == len(progs)+1 {
+				visitedCapSweep(w, thorough)
+				return
+			}
 			if u >= len(progs) {
 				allocSweep(w, thorough)
 				return
@@ -538,6 +543,76 @@ func allocSweep(w *harness.W, thorough bool) {
 	w.C["distinct_nontrivial"] += n
 	w.C["traces_validated_against_impl"] += n
 	w.Sample(map[string]any{"kind": "allocation sweep", "patterns": len(pats), "measurements": n})
+}
+
+// visitedCapSweep drives the bounded backtracker directly at the top of its admitted input range: for every ordered
+// pair (L1, L2) of a length ladder up to MaxInputSize() — eighths of the range and the last three admitted lengths —
+// one pooled BacktrackerState serves a search of length L1 and then one of length L2 (grow, shrink, regrow), through
+// Search and IsMatch, and the visited table (length AND capacity: retained memory) must stay within MaxVisitedSize().
+// The histories of the state graph use short inputs; only inputs near the cap make the table grow up to it.
+func visitedCapSweep(w *harness.W, thorough bool) {
+	pats := []string{`[a-z]+[0-9]`, `\w+@\w+`, `a*b*c*`}
+	if thorough {
+		pats = append(pats, `(a|b)*c`, `(?s).*x`)
+	}
+	n := int64(0)
+	for _, p := range pats {
+		re, err := syntax.Parse(p, syntax.Perl)
+		if err != nil {
+			panic(err)
+		}
+		prog, err := nfa.NewDefaultCompiler().CompileRegexp(re)
+		if err != nil {
+			panic(err)
+		}
+		type ctor struct {
+			name string
+			bt   *nfa.BoundedBacktracker
+		}
+		cs := []ctor{{"small", nfa.NewBoundedBacktrackerSmall(prog)}}
+		for _, c := range cs {
+			maxIn, capV := c.bt.MaxInputSize(), c.bt.MaxVisitedSize()
+			if maxIn <= 0 || capV <= 0 {
+				continue
+			}
+			var ladder []int
+			for k := 1; k <= 8; k++ {
+				ladder = append(ladder, maxIn*k/8)
+			}
+			ladder = append(ladder, maxIn-2, maxIn-1)
+			hay := []byte(strings.Repeat("ab", maxIn/2+2))
+			checkState := func(st *nfa.BacktrackerState, what string, l1, l2 int) {
+				if len(st.Visited) > capV || cap(st.Visited) > capV {
+					w.Fail(&harness.Case{Op: "visited-cap", Mode: c.name, Pattern: p, Hay: strconv.Quote(fmt.Sprintf("ab.. of length %d then %d", l1, l2)), Args: what, Want: fmt.Sprintf("len and cap of the visited table <= %d", capV), Got: fmt.Sprintf("len=%d cap=%d", len(st.Visited), cap(st.Visited)), Cluster: "visited-cap"})
+				}
+			}
+			for _, l1 := range ladder {
+				if !c.bt.CanHandle(l1) {
+					w.Fail(&harness.Case{Op: "visited-cap", Mode: c.name, Pattern: p, Hay: strconv.Quote(fmt.Sprintf("length %d", l1)), Args: "CanHandle", Want: "true up to MaxInputSize()", Got: "false", Cluster: "visited-cap"})
+					continue
+				}
+				for _, l2 := range ladder {
+					st := nfa.NewBacktrackerState()
+					c.bt.SearchWithState(hay[:l1], st)
+					checkState(st, "Search,Search", l1, l2)
+					c.bt.SearchWithState(hay[:l2], st)
+					checkState(st, "Search,Search", l1, l2)
+					st2 := nfa.NewBacktrackerState()
+					c.bt.IsMatchWithState(hay[:l1], st2)
+					c.bt.IsMatchWithState(hay[:l2], st2)
+					checkState(st2, "IsMatch,IsMatch", l1, l2)
+					n += 4
+				}
+			}
+		}
+	}
+	w.C["visited_cap_searches"] += n
+	w.C["evaluations"] += n
+	w.C["transitions"] += n
+	w.C["states"] += n / 4
+	w.C["distinct_nontrivial"] += n / 4
+	w.C["traces_validated_against_impl"] += n
+	w.Sample(map[string]any{"kind": "visited-table cap sweep", "patterns": len(pats), "searches": n})
 }
 
 func histNames(h []step, hs [][]byte) string {
